@@ -15,7 +15,10 @@ func init() {
 			"the weighted-choice verdict of a configuration is only drawn after >= 400 observed substitutions. 1 in 6 general requests runs under a send-fault plan on the registrar's socket " +
 			"(ETERM/EINVAL/EAGAIN/EINTR/EHOSTUNREACH/EFSM/generic; always, once, k times, short count): such a case is an evaluation whatever the outcome (told-the-client => a message was ACCEPTED). " +
 			"Stage concurrent: 16 goroutines x 400 (thorough 4000) registrations with distinct secrets per round on ONE processor; an evaluation = one successful call matched against the multiset of accepted messages. " +
-			"Stages api and dns repeat the told=>accepted and returned-vs-forwarded oracles through the real HTTP handlers / DNSRegServer.processRequest (half of the requests faulted)",
+			"Stages api and dns repeat the told=>accepted and returned-vs-forwarded oracles through the real HTTP handlers / DNSRegServer.processRequest (half of the requests faulted). " +
+			"Stage dns also runs the whole DNS front end (real DNSRegServer + Responder on a loopback UDP socket, client = the real requester.Requester) under registrar configurations with operator " +
+			"prefix overrides of 16 ... 3000 bytes (file-based and fixed; dense around 900-1300 bytes where the answer stops fitting one DNS reply): a case = one registration, an evaluation = one the " +
+			"registrar processed; the returned-vs-forwarded oracle is applied to the DnsResponse the CLIENT decrypted (an empty / absent answer tells the client nothing and decides nothing)",
 		Assumptions: []string{
 			"the station is a real lib.RegistrationManager (both families enabled, min/obfs4/prefix registered) fed through parseRegMessage; ingest stages after parsing (liveness, blocklists) are other properties",
 			"phantom subnets with a leading zero byte, zero total weight and override subnets of /0 are not generated (selector arithmetic is C14's subject)",
@@ -27,7 +30,7 @@ func init() {
 			{Name: "registrar", Pkg: "./pkg/regserver/regprocessor", Run: "^TestVerifC12$", Drivers: []string{"regproc"}, Exports: []string{"lib"}, TimeoutQ: 10 * time.Minute, TimeoutT: 40 * time.Minute},
 			{Name: "concurrent", Pkg: "./pkg/regserver/regprocessor", Run: "^TestVerifC12Concurrent$", Drivers: []string{"regproc"}, Exports: []string{"lib"}, TimeoutQ: 10 * time.Minute, TimeoutT: 40 * time.Minute},
 			{Name: "api", Pkg: "./pkg/regserver/apiregserver", Run: "^TestVerifC12API$", Drivers: []string{"apireg"}, Exports: []string{"regproc"}, TimeoutQ: 10 * time.Minute, TimeoutT: 40 * time.Minute},
-			{Name: "dns", Pkg: "./pkg/regserver/dnsregserver", Run: "^TestVerifC12DNS$", Drivers: []string{"dnsreg"}, Exports: []string{"regproc"}, TimeoutQ: 10 * time.Minute, TimeoutT: 40 * time.Minute},
+			{Name: "dns", Pkg: "./pkg/regserver/dnsregserver", Run: "^TestVerifC12DNS(Large)?$", Drivers: []string{"dnsreg"}, Exports: []string{"regproc", "responder"}, TimeoutQ: 10 * time.Minute, TimeoutT: 40 * time.Minute},
 		},
 	})
 }
